@@ -348,19 +348,30 @@ func runC02(r *Run) {
 				}
 			}
 			lp.Instance("loop condition "+loopCond, true, map[string]string{"continue_while": loopCond})
-			if loopCond != "offset - S <= -1" {
-				lp.Violation(dm, instrPos(off), "loop condition "+loopCond, "the loop must continue exactly while offset < declared size")
+			// the counter may count up from 0 to the declared size, or down from the declared size to 0
+			down := loopCond == "-offset <= -1"
+			if loopCond != "offset - S <= -1" && !down {
+				lp.Violation(dm, instrPos(off), "loop condition "+loopCond, "the loop must continue exactly while offset < declared size (or, counting down, while the remaining size is positive)")
 			}
 			step := linExpr{C: 4, Terms: map[string]int64{}}.add(le.Eval(pCall), 1)
 			for i, e := range off.Edges {
 				pred := off.Block().Preds[i]
 				if !blockDominates(off.Block(), pred) {
+					if down {
+						if !le.Eval(e).equal(le.Eval(sCall)) {
+							lp.Violation(dm, instrPos(off), "remaining size does not start at the declared size", "")
+						}
+						continue
+					}
 					if c, ok := constInt(e); !ok || c != 0 {
 						lp.Violation(dm, instrPos(off), "offset does not start at 0", "")
 					}
 					continue
 				}
 				d := le.Eval(e).add(le.Eval(off), -1)
+				if down {
+					d = le.Eval(off).add(le.Eval(e), -1)
+				}
 				lp.Instance("offset step "+d.String(), true, map[string]string{"offset_step": d.String()})
 				if !d.equal(step) {
 					lp.Violation(dm, instrPos(off), "offset step "+d.String(), "the consumed-bytes counter does not advance by 4 + padded length: the loop ends before or after the declared body")
